@@ -1,21 +1,43 @@
 """C12 — Labels are canonical, stable identities confined to the project."""
 import os
+import shutil
+import tempfile
 from lib.vlib import *
 
 META = {
     "property_id": "C12",
-    "technique": "Coq proof over a Gallina model of label.go/sourceFile.go + exhaustive short-string correspondence",
+    "technique": "Coq proof over a Gallina model of label.go/sourceFile.go and of the sources=/generates= call sites + "
+                 "exhaustive short-string correspondence + call-site sweep on really loaded projects",
     "level_text": "Theorems (Coq, unbounded): parse is total, Parse(String(l)) = l for every accepted label with a name or "
                   "no kind, String is injective on those, the same after RelativeTo, repoSourcePath results have no '..' "
-                  "component, url.PathEscape model is injective and record paths are injective on persisted labels. "
+                  "component, the OS path stored for an accepted generates= / sources= entry is the cleaned project root "
+                  "followed by components none of which is '..' (for any absolute root), url.PathEscape model is injective and record paths are injective on persisted labels. "
                   "The model is tied to label.go, sourceFile.go and project.go by running both on every string of "
-                  "length <= 5 (quick) / <= 7 (thorough) over {a . / : @} plus random strings, all outputs compared.",
+                  "length <= 5 (quick) / <= 7 (thorough) over {a . / : @} plus random strings, all outputs compared; "
+                  "the target builtin is called (and, for a sample, BUILD.dawn files are loaded) in projects rooted at real "
+                  "directories with every path of <= 3 (quick) / 4 (thorough) components over a vocabulary derived from the "
+                  "root's own name and its parent's, the resolved OS paths are checked to lie inside the root and are "
+                  "recomputed by the model.",
     "level_note": "Trusted: Coq kernel; Go's path.Clean/path.Join and url.PathEscape are modelled (component-level) and "
                   "validated only by the correspondence sweep; filesystem symlinks are out of scope.",
     "design_ref": "DESIGN.md §6 C12",
 }
 
 HDR = "From Dawn Require Import Label.Model Label.Run.\nOpen Scope N_scope.\n"
+
+
+ORACLE_FIELDS = {
+    "generated_path_escapes_root": "project root directory (scratch; only its last two elements matter), package, "
+                                   "generates= entry, OS path it was resolved to",
+    "source_path_escapes_root": "project root directory, package, sources= entry, OS path it was resolved to",
+    "escaping_path_accepted_generates": "project root directory, package, generates= entry whose plain resolution "
+                                        "<root>/<pkgdir>/<entry> is outside the root, OS path it was resolved to",
+    "escaping_path_accepted_sources": "project root directory, package, sources= entry whose plain resolution "
+                                      "<root>/<pkgdir>/<entry> is outside the root, OS path it was resolved to",
+}
+
+
+SITE_ROOTS = {}
 
 
 def unhx(s):
@@ -54,6 +76,23 @@ def to_case(f):
     if op == "slabel":
         return "CSlabel %s %s %s" % (cq_bytes(unhx(f[1])), cq_bytes(unhx(f[2])),
                                      "None" if f[3] == "err" else "(Some %s)" % lab(f[4:8]))
+    if op == "site":
+        # roots shared by many cases are Definitions in the header (SITE_ROOTS: bytes -> Coq name); a result below
+        # such a root is written root ++ suffix.  Purely a rendering economy: the compared value is the full path.
+        rootb = unhx(f[1])
+        rname = SITE_ROOTS.get(rootb)
+
+        def res(outcome, hx):
+            if outcome == "err":
+                return "None"
+            b = unhx(hx)
+            if rname and b.startswith(rootb):
+                return "(Some (%s ++ %s))" % (rname, cq_bytes(b[len(rootb):]))
+            return "(Some %s)" % cq_bytes(b)
+        head = "%s %s %s" % (rname or cq_bytes(rootb), cq_bytes(unhx(f[2])), cq_bytes(unhx(f[3])))
+        if f[4] == f[6] and f[5] == f[7]:
+            return "CSiteSame %s %s" % (head, res(f[4], f[5]))
+        return "CSite %s %s %s" % (head, res(f[4], f[5]), res(f[6], f[7]))
     if op == "tip":
         return "CTip (mkLabel %s (@nil N) %s %s) %s" % (cq_bytes(unhx(f[1])), cq_bytes(unhx(f[2])),
                                                        cq_bytes(unhx(f[3])), cq_bytes(unhx(f[4])))
@@ -61,6 +100,8 @@ def to_case(f):
 
 
 def show(f):
+    if f[0] in ("site", "linkpanic"):
+        return [f[0]] + [x if x in ("ok", "err", "panic") else unhx(x).decode("latin-1") for x in f[1:]]
     return [f[0]] + [unhx(x).decode("latin-1") if x not in ("ok", "err", "panic") and not x.isdigit() or x == "-" else x
                      for x in f[1:]]
 
@@ -84,9 +125,23 @@ def run(ctx):
         ctx.violation("label harness failed to build or run against /repo (exit %d)" % rc,
                       {"theorem_or_correspondence": "C12 correspondence harness (label)", "output": o[-3000:]}, found_input=False)
         return
-    env2 = {"VERIF_OUT": out2, "VERIF_MAXLEN": str(6 if ctx.quick() else 8)}
-    rc, o = ctx.go_overlay_test("", {"zz_verif_c12_test.go": os.path.join(HARNESS, "overlay/root/zz_verif_c12_test.go")},
-                                "^TestVerifC12Paths$", env2)
+    out3 = os.path.join(ctx.tmp, "c12_sites.tsv")
+    site_depth, site_roots = (3, 2) if ctx.quick() else (4, 4)
+    site_nrand, site_nload = (300, 50) if ctx.quick() else (4000, 300)
+    env2 = {"VERIF_OUT": out2, "VERIF_MAXLEN": str(6 if ctx.quick() else 8),
+            "VERIF_OUT_SITES": out3, "VERIF_SEED": str(ctx.seed), "VERIF_SITE_DEPTH": str(site_depth),
+            "VERIF_SITE_ROOTS": str(site_roots), "VERIF_SITE_NRAND": str(site_nrand), "VERIF_SITE_NLOAD": str(site_nload)}
+    # the call-site harness creates real projects and writes a record per target() call: keep that off the disk
+    shm = "/dev/shm"
+    if os.path.isdir(shm) and os.access(shm, os.W_OK):
+        env2["TMPDIR"] = tempfile.mkdtemp(prefix="verif-c12-", dir=shm)
+    try:
+        rc, o = ctx.go_overlay_test("", {"zz_verif_c12_test.go": os.path.join(HARNESS, "overlay/root/zz_verif_c12_test.go"),
+                                         "zz_verif_c12_sites_test.go": os.path.join(HARNESS, "overlay/root/zz_verif_c12_sites_test.go")},
+                                    "^TestVerifC12(Paths|Sites)$", env2)
+    finally:
+        if "TMPDIR" in env2:
+            shutil.rmtree(env2["TMPDIR"], ignore_errors=True)
     if rc != 0:
         ctx.log(o[-3000:])
         ctx.violation("path harness failed to build or run against /repo (exit %d)" % rc,
@@ -97,11 +152,15 @@ def run(ctx):
     oracles = []
     dist = {}
     panics = []
-    for p in (out1, out2):
+    linkpanics = []
+    for p in (out1, out2, out3):
         for line in open(p):
             f = line.rstrip("\n").split("\t")
             if f[0] == "ORACLE":
                 oracles.append(f)
+                continue
+            if f[0] == "linkpanic":
+                linkpanics.append(f)
                 continue
             if "panic" in f:
                 panics.append(f)
@@ -114,26 +173,52 @@ def run(ctx):
     ctx.coverage["rule"] = ("every string of length <= %d over {a . / : @} through Parse/String/RelativeTo (7 packages), "
                             "length <= %d through Clean/Split, a 13^3x5 product through New, 13^2 through Join, every path "
                             "of length <= %d over {a . /} x 5 packages through repoSourcePath/sourceLabel/targetInfoPath, "
-                            "%d random strings (seeded); non-trivial = accepted by the implementation; distinct by full case"
-                            % (maxlen, maxlen - 1, 6 if ctx.quick() else 8, nrand))
+                            "%d random strings (seeded); call sites: target(generates=[g]) and target(sources=[g]) on really "
+                            "loaded projects at %d root directories <tmp>/<P>/<B>, g = every sequence of <= %d components over "
+                            "{.., ., '', x, s, B, B-o, B2, B minus its last byte, P} with and without a leading '/', from "
+                            "packages //, //s, //s/t, + %d seeded deeper paths per root, + %d per root end to end through "
+                            "BUILD.dawn/Load; non-trivial = accepted by the implementation; distinct by full case"
+                            % (maxlen, maxlen - 1, 6 if ctx.quick() else 8, nrand, site_roots, site_depth, site_nrand,
+                               site_nload))
     ctx.coverage["exhaustive"] = True
     ctx.coverage["correspondence"]["distribution"] = dist
     ctx.add_samples([show(f) for f in cases[1000:1003] + cases[-2:]])
 
+    oracles.sort(key=lambda f: sum(len(x) for x in f[2:]))   # simplest failing input first (stable)
     for f in oracles:
         ctx.violation("implementation violates C12 oracle %s" % f[1],
                       {"oracle": f[1], "inputs": [unhx(x).decode("latin-1") for x in f[2:]], "inputs_hex": f[2:],
-                       "how": "label.Parse / sourceFile.go on the given input; see harness/overlay/*/zz_verif_c12_test.go"})
+                       "inputs_meaning": ORACLE_FIELDS.get(f[1], "the harness inputs in order"),
+                       "how": "label.Parse / sourceFile.go / target(sources=, generates=) on the given input; see "
+                              "harness/overlay/*/zz_verif_c12*_test.go"})
     for f in panics:
         ctx.violation("implementation panics", {"case": show(f), "hex": f})
+    if linkpanics:
+        # not part of C12's statement (the path is inside the root): reported to the coordinator, noted in the evidence
+        ctx.coverage["notes_outside_property"] = {
+            "what": "Load panics in Project.link (slice bounds out of range) when a generates= entry resolves to the "
+                    "project root itself; observed, not counted against C12",
+            "count": len(linkpanics), "examples": [show(f) for f in linkpanics[:3]]}
+        ctx.log("note: %d generates= entries resolving to the root itself made Load panic in link() (outside C12)"
+                % len(linkpanics))
 
     # model evaluation inside Coq, sharded
+    SITE_ROOTS.clear()
+    nroot = {}
+    for f in cases:
+        if f[0] == "site":
+            nroot[unhx(f[1])] = nroot.get(unhx(f[1]), 0) + 1
+    hdr = HDR
+    for b, n in sorted(nroot.items()):
+        if n > 20:
+            SITE_ROOTS[b] = "sroot%d" % len(SITE_ROOTS)
+            hdr += "Definition %s : str := %s.\n" % (SITE_ROOTS[b], cq_bytes(b))
     shard = 2500
     exprs = []
     for i in range(0, len(cases), shard):
         items = ["(%s, %s)" % (cq_N(i + j), to_case(f)) for j, f in enumerate(cases[i:i + shard])]
         exprs.append("mismatches [\n" + ";\n".join(items) + "]")
-    okc, res, logs = ctx.coq_eval(HDR, exprs)
+    okc, res, logs = ctx.coq_eval(hdr, exprs)
     mism = []
     if not okc:
         ctx.log("coq evaluation failed", logs[:1])
